@@ -126,7 +126,7 @@ def dedupe(attrs):
 
 
 def gen_forest(rng):
-    n = rng.choice([1, 2, 3, 3, 4, 4, 5, 5, 6, 7, 8])
+    n = rng.choice([1, 2, 3, 4, 4, 5, 5, 6, 6, 7, 8])
     ids = list(range(1, 10))
     rng.shuffle(ids)
     str_ids = rng.random() < 0.07
@@ -172,9 +172,13 @@ def effective_attrs(node):
 # ---------- filters -------------------------------------------------------------------------------
 def gen_filter(rng, forest, used):
     nodes = list(all_nodes(forest))
+    live = sorted({k for n in nodes for k, v in effective_attrs(n).items() if v is not None} | {'id', 'parent_id'})
     for _ in range(20):
-        attr = rng.choice(['name', 'name', 'resource', 'estimate', 'estimate', 'spent', 'milestone', 'start',
-                           'parent_id', 'id', 'id', 'prio', 'tag', 'flag', 'x', 'x_not', 'kind_is', 'zzz'])
+        if rng.random() < 0.7:
+            attr = rng.choice(live)      # an attribute some task really has
+        else:
+            attr = rng.choice(['name', 'name', 'resource', 'estimate', 'estimate', 'spent', 'milestone', 'start',
+                               'parent_id', 'id', 'id', 'prio', 'tag', 'flag', 'x', 'x_not', 'kind_is', 'zzz'])
         suffix = rng.choice(KINDS)
         kw = attr + suffix
         if kw not in used:
@@ -184,7 +188,7 @@ def gen_filter(rng, forest, used):
     def typed():
         # mostly a value some task really has, sometimes a fresh one of the usual type, sometimes any type
         r = rng.random()
-        if r < 0.5:
+        if r < 0.65:
             vals = []
             for n in nodes:
                 if attr == 'id':
@@ -251,9 +255,110 @@ def py_eq_wire(a, b):
     return wire_py(a) == wire_py(b)
 
 
+def node_view(node, parent, attr):
+    if attr == 'id':
+        return node['id']
+    if attr == 'parent_id':
+        return parent['id'] if parent is not None else None
+    return effective_attrs(node).get(attr)
+
+
+def other_value(rng, v):
+    for _ in range(10):
+        w = gen_value_for(rng, {'s': 'name', 'i': 'estimate', 'f': 'estimate', 'b': 'flag', 't': 'start'}[v[0]] if v else 'name')
+        if not py_eq_wire(v, w):
+            return w
+    return vs('no such value')
+
+
+def gen_filter_for(rng, node, parent, used):
+    """A filter the given task satisfies (so that conjunctions select something)."""
+    for _ in range(20):
+        attr = rng.choice(['id', 'parent_id', 'name', 'resource', 'estimate', 'spent', 'milestone', 'start']
+                          + [k for k, _ in node['attrs']])
+        v = node_view(node, parent, attr)
+        if v is None:
+            suffix = rng.choice(['_is_none_', '', '_in_', '_not_in_'])
+        elif v[0] == 's':
+            suffix = rng.choice(KINDS[:3] + KINDS[4:])
+        else:
+            suffix = rng.choice(KINDS[:3] + KINDS[4:10])
+        kw = attr + suffix
+        if kw not in used:
+            break
+    used.add(kw)
+    if v is None:
+        if suffix == '_is_none_':
+            return [kw, ['v', vb(True)]]
+        if suffix == '':
+            return [kw, ['v', None]]
+        if suffix == '_in_':
+            return [kw, ['l', [gen_value_for(rng, attr), None], 'list']]
+        return [kw, ['l', [gen_value_for(rng, attr)], rng.choice(['list', 'tuple'])]]
+    if suffix == '':
+        return [kw, ['v', v]]
+    if suffix == '_in_':
+        vals = [other_value(rng, v), v]
+        rng.shuffle(vals)
+        return [kw, ['l', vals, rng.choice(['list', 'tuple'])]]
+    if suffix == '_not_in_':
+        return [kw, ['l', [other_value(rng, v), None][:rng.randint(1, 2)], 'list']]
+    if suffix == '_is_not_none_':
+        return [kw, ['v', vb(True)]]
+    if suffix == '_ne_':
+        return [kw, ['v', other_value(rng, v)]]
+    if suffix in ('_le_', '_ge_'):
+        return [kw, ['v', v]]
+    if suffix in ('_lt_', '_gt_'):
+        up = suffix == '_lt_'
+        if v[0] == 's':
+            w = vs(v[1] + 'a') if up else vs(v[1][:-1] if v[1] else '')
+            if not up and not v[1]:
+                return [kw[:-4] + '_ge_', ['v', v]]
+            return [kw, ['v', w]]
+        if v[0] == 't':
+            return [kw, ['v', ['t', v[1] + (DAY if up else -DAY)]]]
+        x = wire_py(v)
+        return [kw, ['v', vf(float(x) + (0.5 if up else -0.5))]]
+    if suffix == '_like_':
+        txt = v[1]
+        a = rng.randint(0, len(txt))
+        b = rng.randint(a, len(txt))
+        sub = txt[a:b]
+        return [kw, ['v', vs(sub)]]
+    if suffix == '_not_like_':
+        return [kw, ['v', vs(rng.choice(['zz', 'qq', '#', 'Z9']))]]
+    raise ValueError(suffix)
+
+
+def parent_map(forest):
+    m = {}
+
+    def walk(n, p):
+        m[n['o']] = p
+        for c in n['ch']:
+            walk(c, n)
+    for r in forest:
+        walk(r, None)
+    return m
+
+
 def gen_filters(rng, forest, lo=1, hi=3):
     used = set()
-    return [gen_filter(rng, forest, used) for _ in range(rng.randint(lo, hi))]
+    nodes = list(all_nodes(forest))
+    if nodes and rng.random() < 0.5:
+        # all filters are satisfied by one chosen task
+        target = rng.choice(nodes)
+        par = parent_map(forest)[target['o']]
+        n = rng.choice([k for k in (1, 1, 2, 2, 3, 3) if lo <= k <= hi])
+        out = []
+        for _ in range(n):
+            f = gen_filter_for(rng, target, par, used)
+            if f[0] not in [g[0] for g in out]:
+                out.append(f)
+        return out
+    n = rng.choice([k for k in (1, 1, 1, 2, 2, 3, 0) if lo <= k <= hi])
+    return [gen_filter(rng, forest, used) for _ in range(n)]
 
 
 def gen_pred(rng, forest, depth=0):
@@ -284,15 +389,17 @@ def gen_source(rng, forest, free, depth=0):
         return ['all']
     if r < 0.50 and not free:
         return ['roots']
+    inner = [n for n in nodes if n['ch']]
+    pool = inner if inner and rng.random() < 0.85 else nodes
     if r < 0.64:
-        return ['kids', rng.choice(nodes)['o']]
+        return ['kids', rng.choice(pool)['o']]
     if r < 0.76:
-        return ['desc', rng.choice(nodes)['o']]
+        return ['desc', rng.choice(pool)['o']]
     if depth < 2:
         key = gen_key(rng, forest)
         if key is not None and key[0] == 'bad':
             key = None
-        return ['query', gen_source(rng, forest, free, depth + 1), key, gen_filters(rng, forest, 0, 2)]
+        return ['query', gen_source(rng, forest, free, depth + 1), key, gen_filters(rng, forest, 0, 1)]
     return ['all']
 
 
@@ -620,7 +727,7 @@ def kind_of_kw(kw):
 
 
 def run(ctx):
-    n = 1500 if ctx.tier == 'quick' else 24000
+    n = 3000 if ctx.tier == "quick" else 40000
     cases = list(CORPUS) + [gen_case(ctx.rng) for _ in range(n)]
     obs, codes = evaluate(ctx, cases)
     distinct = set()
